@@ -264,6 +264,7 @@ type sched struct {
 	abort       interface{}
 	killed      bool
 	preemptLeft int
+	schedLeft   int // -1: unlimited
 	exited      chan struct{}
 	live        int
 }
@@ -272,7 +273,7 @@ type killSignal struct{}
 
 func (ex *Exec) initSched() {
 	main := &gstate{id: 0, wake: make(chan struct{}, 1)}
-	ex.gor = &sched{gs: []*gstate{main}, cur: main, exited: make(chan struct{}, 64), preemptLeft: ex.sh.preempt}
+	ex.gor = &sched{gs: []*gstate{main}, cur: main, exited: make(chan struct{}, 64), preemptLeft: ex.sh.preempt, schedLeft: ex.sh.schedLimit}
 }
 
 func (ex *Exec) saveG() {
@@ -366,10 +367,13 @@ func (ex *Exec) pickNext(g *gstate) *gstate {
 		return main
 	}
 	pick := r[0]
-	if len(r) > 1 {
+	if len(r) > 1 && sc.schedLeft != 0 {
 		k := ex.choose(len(r))
 		ex.nd = append(ex.nd, ndEntry{Kind: "sched", Int: r[k].id})
 		pick = r[k]
+		if k != 0 && sc.schedLeft > 0 {
+			sc.schedLeft--
+		}
 	}
 	return pick
 }
